@@ -246,6 +246,10 @@ def _check_units(w):
     a = new_decoder(build_network_map=True)
     b = new_decoder(build_network_map=True, preferred_units=prefs)
     m0, m1 = decode(a, w["pgn"], p, n), decode(b, w["pgn"], p, n)
+
+    def snap(m):     # taken at once: a later decode must not be able to reach back into what was returned
+        return None if m is None or isinstance(m, Exception) else [(f.id, f.value, f.unit_of_measurement, f.raw_value) for f in m.fields]
+    snaps = {"with preferences": snap(m1), "without preferences": snap(m0)}
     if m0 is None or isinstance(m0, Exception):
         if not (m1 is None or isinstance(m1, Exception)):
             return {**w, "key": "units:decodes-only-with-preferences", "what": f"PGN {w['pgn']} decodes only with preferences"}
@@ -291,6 +295,21 @@ def _check_units(w):
             return {**base, "key": f"units:value:{q}:{u}",
                     "what": f"PGN {w['pgn']} field {f0.id}: {f0.value!r} {f0.unit_of_measurement} -> {f1.value!r} {u}, exact "
                             f"{float(ex)!r} (payload {w['payload']}, preferences {w['prefs']})"}
+    # the same payload again (devices repeat an unchanged reading many times a second): each decoder returns what it
+    # returned the first time — a conversion is applied to the message being returned, once
+    for rep in (2, 3):
+        for who, dec_, first in (("with preferences", b, m1), ("without preferences", a, m0)):
+            again = snap(decode(dec_, w["pgn"], p, n))
+            now_first = snap(first)
+            for label, got in (("decode #%d of the same payload" % rep, again), ("the message returned by decode #1, looked at again", now_first)):
+                if got is None or len(got) != len(snaps[who]):
+                    return {**base, "key": "units:repeated-decode-differs",
+                            "what": f"PGN {w['pgn']} payload {w['payload']}: {label} on the decoder {who} gives {got!r}"}
+                for x, y in zip(snaps[who], got):
+                    if not _same(x[1], y[1]) or x[2] != y[2] or not _same(x[3], y[3]):
+                        return {**base, "key": "units:repeated-decode-differs",
+                                "what": f"PGN {w['pgn']} payload {w['payload']} preferences {w['prefs']}, decoder {who}: {label}: field "
+                                        f"{x[0]} was {x[1]!r} {x[2]!r} the first time, is {y[1]!r} {y[2]!r}"}
     return None
 
 
